@@ -1,4 +1,5 @@
 import BreezyVerif.Lemmas.C32B
+import BreezyVerif.Lemmas.C32W
 /-
 C32 — operations through a smart server match local operations.
 
@@ -10,6 +11,15 @@ the same state as the local step.  Hypotheses: the revision ids that travel in
 the line-oriented get_parent_map response are wire-safe (`RevOK`: non-empty, no
 blank, no newline, not starting with "missing:") — for the stored graph, the
 server's extras and the requested keys.
+
+Part 2 (Model/C32S.lean): lock-scope sessions on ONE long-lived object with the
+client-side caches as state.  `remote_session_step_spec` / `remote_session_run_spec`
+(cache coherence is an invariant of every operation; the cached remote run = the
+cache-free specification), `local_session_*` (the same for the local object),
+`remote_session_refines_local` (the refinement), `session_caches_scoped`,
+`seeded_variant_invisible_without_lock_scope` + `stale_tip_cache_witness` (why the
+sequences must stay inside one lock scope), the as-found tag-cache findings
+(`…_partial`, two witnesses), and the link to the single-operation model.
 -/
 namespace BreezyVerif.C32
 
@@ -143,5 +153,251 @@ example :
     (runWith (localStep [([97, 49], [])]) St.init
       [.fetch [97, 49], .lockLeave, .tipSet 1 [97, 49], .tipSetTok true 1 [97, 49], .relockRelease true, .tip]).1
     = [.ok, .token, .err .lockContention, .ok, .ok, .info 1 [97, 49]] := by decide
+
+/-! ## part 2: lock-scope sessions, caches as state -/
+
+/-- **cache transparency, local object**: from a coherent object every operation of a `BzrBranch`-like
+object (cached tip / tags) returns what the cache-free specification returns, leaves the same stored state
+and lock state, and the object is coherent again -/
+theorem local_session_step_spec (src : Graph) (o : Obj) (st : St) (op : SOp) (hc : Coherent o st) (hl : LocalObj o) :
+    (lsStep src o st op).1 = (specStep src o.lk st op).1
+      ∧ (lsStep src o st op).2.1.lk = (specStep src o.lk st op).2.1
+      ∧ (lsStep src o st op).2.2 = (specStep src o.lk st op).2.2
+      ∧ Coherent (lsStep src o st op).2.1 (lsStep src o st op).2.2
+      ∧ LocalObj (lsStep src o st op).2.1 :=
+  sessStep_spec src (lsBody src) LocalObj localObj_stable o st op hc hl
+    (fun o' st' hc' hl' _ => lsBody_spec src op o' st' hc' hl')
+
+/-- **cache transparency, remote object** (one step of the cache-invalidation invariant): for EVERY
+coherent object, stored state, source graph and operation, the `RemoteBranch` step — RPC verbs through the
+wire codecs, `pull` delegated to the VFS branch object with its own caches — returns the specification's
+result, leaves the specification's stored state and lock state, and ALL FOUR caches (own tip / tags, VFS
+branch's tip / tags) are coherent with the new stored state again.  Hypotheses: the client primes / clears
+the VFS branch's tip cache after `set_last_revision_info` (`tipCoherent`, as /repo does), and either keeps
+both tag caches coherent or the operation brings no source tags while the VFS branch's tags cache is empty. -/
+theorem remote_session_step_spec (v : Variant) (src : Graph) (ex : List RevId) (o : Obj) (st : St) (op : SOp)
+    (hv : v.tipCoherent = true) (ht : (v.tagsOwn = true ∧ v.tagsReal = true) ∨ NoSrcTags op)
+    (hc : Coherent o st) (hi : TagsInv v o) :
+    (rsStep v src ex o st op).1 = (specStep src o.lk st op).1
+      ∧ (rsStep v src ex o st op).2.1.lk = (specStep src o.lk st op).2.1
+      ∧ (rsStep v src ex o st op).2.2 = (specStep src o.lk st op).2.2
+      ∧ Coherent (rsStep v src ex o st op).2.1 (rsStep v src ex o st op).2.2
+      ∧ TagsInv v (rsStep v src ex o st op).2.1 := by
+  unfold rsStep
+  rw [rLock_fun_eq, rUnlock_fun_eq]
+  apply sessStep_spec src (rsBody v src ex) (TagsInv v) (tagsInv_stable v) o st op hc hi
+  intro o' st' hc' hi' hw
+  have hts : TagsSafe v op o' := by
+    rcases ht with h | h
+    · exact Or.inl h
+    · rcases hi' with h' | h'
+      · exact Or.inl h'
+      · exact Or.inr ⟨h, h'⟩
+  exact rsBody_spec v src ex op o' st' hc' hw hv hts
+
+/-- whole sessions of the local object = the specification (induction over the script) -/
+theorem local_session_run_spec (src : Graph) :
+    ∀ (ops : List SOp) (o : Obj) (st : St), Coherent o st → LocalObj o →
+      (runSess (lsStep src) o st ops).1 = (runSpec src o.lk st ops).1
+        ∧ (runSess (lsStep src) o st ops).2.1.lk = (runSpec src o.lk st ops).2.1
+        ∧ (runSess (lsStep src) o st ops).2.2 = (runSpec src o.lk st ops).2.2
+        ∧ Coherent (runSess (lsStep src) o st ops).2.1 (runSess (lsStep src) o st ops).2.2
+  | [], o, st, hc, _ => ⟨rfl, rfl, rfl, hc⟩
+  | op :: ops, o, st, hc, hl => by
+    obtain ⟨s1, s2, s3, s4, s5⟩ := local_session_step_spec src o st op hc hl
+    obtain ⟨r1, r2, r3, r4⟩ := local_session_run_spec src ops _ _ s4 s5
+    simp only [runSess, runSpec]
+    rw [r1, r2, r3] at *
+    rw [s1, s2, s3] at *
+    exact ⟨rfl, rfl, rfl, by rw [← r3]; exact r4⟩
+
+
+/-- **cache-invalidation invariant, by induction over the operations**: along ANY script (arbitrary
+nesting of lock scopes, VFS-delegated pulls, tip and tag writes over RPC, reads) the remote object stays
+coherent with the stored state, and the whole run returns the specification's results and final state -/
+theorem remote_session_run_spec (v : Variant) (src : Graph) (ex : List RevId) (hv : v.tipCoherent = true) :
+    ∀ (ops : List SOp) (o : Obj) (st : St), Coherent o st → TagsInv v o →
+      ((v.tagsOwn = true ∧ v.tagsReal = true) ∨ ∀ op ∈ ops, NoSrcTags op) →
+      (runSess (rsStep v src ex) o st ops).1 = (runSpec src o.lk st ops).1
+        ∧ (runSess (rsStep v src ex) o st ops).2.1.lk = (runSpec src o.lk st ops).2.1
+        ∧ (runSess (rsStep v src ex) o st ops).2.2 = (runSpec src o.lk st ops).2.2
+        ∧ Coherent (runSess (rsStep v src ex) o st ops).2.1 (runSess (rsStep v src ex) o st ops).2.2
+  | [], o, st, hc, _, _ => ⟨rfl, rfl, rfl, hc⟩
+  | op :: ops, o, st, hc, hi, ht => by
+    have ht1 : (v.tagsOwn = true ∧ v.tagsReal = true) ∨ NoSrcTags op := by
+      rcases ht with h | h
+      · exact Or.inl h
+      · exact Or.inr (h op (by simp))
+    have ht2 : (v.tagsOwn = true ∧ v.tagsReal = true) ∨ ∀ op' ∈ ops, NoSrcTags op' := by
+      rcases ht with h | h
+      · exact Or.inl h
+      · exact Or.inr (fun op' h' => h op' (List.mem_cons_of_mem _ h'))
+    obtain ⟨s1, s2, s3, s4, s5⟩ := remote_session_step_spec v src ex o st op hv ht1 hc hi
+    obtain ⟨r1, r2, r3, r4⟩ := remote_session_run_spec v src ex hv ops _ _ s4 s5 ht2
+    simp only [runSess, runSpec]
+    rw [r1, r2, r3] at *
+    rw [s1, s2, s3] at *
+    exact ⟨rfl, rfl, rfl, by rw [← r3]; exact r4⟩
+
+/-- **refinement of whole sessions** (the property, for the modelled operations): any script run on ONE
+long-lived `RemoteBranch` object — whatever its lock scopes — returns the same list of results, leaves the
+same stored branch / repository state and the same logical lock state as the script run on a local object.
+Client with coherent tip AND tag caches (`Variant.fixed`). -/
+theorem remote_session_refines_local (src : Graph) (ex : List RevId) (ops : List SOp) (ro lo : Obj) (st : St)
+    (hr : Coherent ro st) (hl : Coherent lo st) (hlo : LocalObj lo) (hk : ro.lk = lo.lk) :
+    (runSess (rsStep Variant.fixed src ex) ro st ops).1 = (runSess (lsStep src) lo st ops).1
+      ∧ (runSess (rsStep Variant.fixed src ex) ro st ops).2.2 = (runSess (lsStep src) lo st ops).2.2
+      ∧ (runSess (rsStep Variant.fixed src ex) ro st ops).2.1.lk = (runSess (lsStep src) lo st ops).2.1.lk := by
+  obtain ⟨a1, a2, a3, _⟩ := remote_session_run_spec Variant.fixed src ex rfl ops ro st hr (Or.inl ⟨rfl, rfl⟩)
+    (Or.inl ⟨rfl, rfl⟩)
+  obtain ⟨b1, b2, b3, _⟩ := local_session_run_spec src ops lo st hl hlo
+  rw [a1, a2, a3, b1, b2, b3, hk]
+  exact ⟨rfl, rfl, rfl⟩
+
+/-- **as found** (`RemoteBranch` does not keep the tag caches coherent): PARTIAL — refinement holds for
+every script whose pulls bring no source tags.  What is missing is exactly the family of
+`stale_tags_cache_witness` / `stale_vfs_tags_cache_witness`. -/
+theorem remote_session_refines_local_partial (src : Graph) (ex : List RevId) (ops : List SOp) (ro lo : Obj) (st : St)
+    (hr : Coherent ro st) (hl : Coherent lo st) (hlo : LocalObj lo) (hk : ro.lk = lo.lk)
+    (hn : ro.realTagsC = none) (hops : ∀ op ∈ ops, NoSrcTags op) :
+    (runSess (rsStep Variant.asFound src ex) ro st ops).1 = (runSess (lsStep src) lo st ops).1
+      ∧ (runSess (rsStep Variant.asFound src ex) ro st ops).2.2 = (runSess (lsStep src) lo st ops).2.2
+      ∧ (runSess (rsStep Variant.asFound src ex) ro st ops).2.1.lk = (runSess (lsStep src) lo st ops).2.1.lk := by
+  obtain ⟨a1, a2, a3, _⟩ := remote_session_run_spec Variant.asFound src ex rfl ops ro st hr (Or.inr hn)
+    (Or.inr hops)
+  obtain ⟨b1, b2, b3, _⟩ := local_session_run_spec src ops lo st hl hlo
+  rw [a1, a2, a3, b1, b2, b3, hk]
+  exact ⟨rfl, rfl, rfl⟩
+
+/-- caches live only inside lock scopes: for ANY client variant (also the broken ones) and any script, an
+object that is not locked holds no cached tip / tags, its own or its VFS branch's — which is why stale
+caches can only be observed by operation sequences INSIDE one lock scope -/
+theorem session_caches_scoped (v : Variant) (src : Graph) (ex : List RevId) :
+    ∀ (ops : List SOp) (o : Obj) (st : St), Scoped o → Scoped (runSess (rsStep v src ex) o st ops).2.1
+  | [], _, _, hs => hs
+  | op :: ops, o, st, hs => by
+    simp only [runSess]
+    exact session_caches_scoped v src ex ops _ _
+      (sessStep_scoped _ _ (rsBody v src ex) (rsBody_lk v src ex) o st op hs)
+
+/-- the same for the local object -/
+theorem local_session_caches_scoped (src : Graph) :
+    ∀ (ops : List SOp) (o : Obj) (st : St), Scoped o → Scoped (runSess (lsStep src) o st ops).2.1
+  | [], _, _, hs => hs
+  | op :: ops, o, st, hs => by
+    simp only [runSess]
+    exact local_session_caches_scoped src ops _ _
+      (sessStep_scoped _ _ (lsBody src) (lsBody_lk src) o st op hs)
+
+
+/-- **the property for the modelled session operations, without any hypothesis**: for every stored state,
+source graph and script, a freshly opened RemoteBranch object driven through the script gives the same results,
+the same stored state and the same lock state as a freshly opened local object -/
+theorem fresh_remote_session_refines_local (src : Graph) (ex : List RevId) (st : St) (ops : List SOp) :
+    (runSess (rsStep Variant.fixed src ex) {} st ops).1 = (runSess (lsStep src) {} st ops).1
+      ∧ (runSess (rsStep Variant.fixed src ex) {} st ops).2.2 = (runSess (lsStep src) {} st ops).2.2
+      ∧ (runSess (rsStep Variant.fixed src ex) {} st ops).2.1.lk = (runSess (lsStep src) {} st ops).2.1.lk :=
+  remote_session_refines_local src ex ops {} {} st (coherent_fresh st) (coherent_fresh st) ⟨rfl, rfl, rfl⟩ rfl
+
+/-- the same as found, for scripts whose pulls bring no source tags -/
+theorem fresh_remote_session_refines_local_partial (src : Graph) (ex : List RevId) (st : St) (ops : List SOp)
+    (hops : ∀ op ∈ ops, NoSrcTags op) :
+    (runSess (rsStep Variant.asFound src ex) {} st ops).1 = (runSess (lsStep src) {} st ops).1
+      ∧ (runSess (rsStep Variant.asFound src ex) {} st ops).2.2 = (runSess (lsStep src) {} st ops).2.2
+      ∧ (runSess (rsStep Variant.asFound src ex) {} st ops).2.1.lk = (runSess (lsStep src) {} st ops).2.1.lk :=
+  remote_session_refines_local_partial src ex ops {} {} st (coherent_fresh st) (coherent_fresh st) ⟨rfl, rfl, rfl⟩ rfl
+    rfl hops
+
+
+/-- **why single operations cannot see it**: a client whose `set_last_revision_info` does not clear /
+prime the VFS branch's caches (`Variant.seeded`) is step-for-step IDENTICAL (result, object, stored state) to
+the correct client on every operation issued on an unlocked object — each operation then has its own lock
+cycle and the unlock drops every cache.  Only a sequence inside one lock scope can tell them apart
+(`stale_tip_cache_witness`). -/
+theorem seeded_variant_invisible_without_lock_scope (src : Graph) (ex : List RevId) (o : Obj) (st : St) (op : SOp)
+    (hu : o.lk.mode = .unlocked) :
+    rsStep Variant.seeded src ex o st op = rsStep Variant.fixed src ex o st op := by
+  cases op with
+  | setTip n r =>
+    simp only [rsStep, sessStep]
+    exact withLk_unlocked_mod_caches _ _ _ o st _ _ hu
+      (fun o' st' => ⟨rsBody_lk _ src ex _ o' st', rsBody_lk _ src ex _ o' st'⟩)
+      (fun o' st' => rsBody_setTip_mod_caches _ _ src ex n r o' st')
+  | _ => rfl
+
+
+
+/-- **a stale VFS-branch tip cache is observable** (the input family the generator must contain): in ONE
+write-lock scope — pull a2 (the VFS branch caches the tip), set the tip to a3 over RPC, pull the rival x3 —
+the local run and the correct client refuse the last pull (diverged, tip stays a3); the client that does not
+prime the VFS branch's cache accepts it and the stored tip becomes x3 -/
+theorem stale_tip_cache_witness :
+    (runSess (lsStep wSrc) {} St.init wScript).1
+        = [.token, .moved (0, nullRev) (2, wA2) 0, .moved (2, wA2) (3, wA3) 0, .err .diverged, .ok]
+      ∧ (runSess (lsStep wSrc) {} St.init wScript).2.2.tip = (3, wA3)
+      ∧ (runSess (rsStep Variant.fixed wSrc []) {} St.init wScript).1
+        = [.token, .moved (0, nullRev) (2, wA2) 0, .moved (2, wA2) (3, wA3) 0, .err .diverged, .ok]
+      ∧ (runSess (rsStep Variant.seeded wSrc []) {} St.init wScript).1
+        = [.token, .moved (0, nullRev) (2, wA2) 0, .moved (2, wA2) (3, wA3) 0, .moved (2, wA2) (3, wX3) 0, .ok]
+      ∧ (runSess (rsStep Variant.seeded wSrc []) {} St.init wScript).2.2.tip = (3, wX3) := by
+  decide
+
+/-- **finding, own tags cache** (as found in /repo): lock, read the tags, pull a source with tag v1 (merged
+by the VFS branch), set a tag: the RemoteBranch writes its stale dictionary back and v1 is lost -/
+theorem stale_tags_cache_witness :
+    let ops : List SOp := [.lockW, .tagDict, .pull false 1 wA1 [(tV1, wA1)], .tagSet tMine wA1, .unlock]
+    (runSess (lsStep wSrc) {} St.init ops).2.2.tags = [(tV1, wA1), (tMine, wA1)]
+      ∧ (runSess (rsStep Variant.fixed wSrc []) {} St.init ops).2.2.tags = [(tV1, wA1), (tMine, wA1)]
+      ∧ (runSess (rsStep Variant.asFound wSrc []) {} St.init ops).2.2.tags = [(tMine, wA1)] := by
+  decide
+
+/-- **finding, VFS branch's tags cache** (as found in /repo): lock, pull a tagged source (the VFS branch
+caches the tags), set a tag over RPC, pull again with a new source tag: the VFS branch merges into its stale
+dictionary and the tag set over RPC is lost -/
+theorem stale_vfs_tags_cache_witness :
+    let ops : List SOp := [.lockW, .pull false 1 wA1 [(tV1, wA1)], .tagSet tMine wA1,
+      .pull false 1 wA1 [(tV1, wA1), (tV2, wA1)], .unlock]
+    (runSess (lsStep wSrc) {} St.init ops).2.2.tags = [(tV1, wA1), (tMine, wA1), (tV2, wA1)]
+      ∧ (runSess (rsStep Variant.fixed wSrc []) {} St.init ops).2.2.tags = [(tV1, wA1), (tMine, wA1), (tV2, wA1)]
+      ∧ (runSess (rsStep Variant.asFound wSrc []) {} St.init ops).2.2.tags = [(tV1, wA1), (tV2, wA1)] := by
+  decide
+
+
+/-- the session specification extends the single-operation model of part 1: on an unlocked object an
+operation of the session model is the corresponding `localStep` (here the write operation `tagSet` …) -/
+theorem spec_unlocked_eq_localStep_tagSet (src : Graph) (st : St) (name : Bytes) (r : RevId) :
+    ((specStep src {} st (.tagSet name r)).1, (specStep src {} st (.tagSet name r)).2.2)
+      = localStep src st (.tagSet name r) := by
+  simp only [specStep, withLkS, acquire, SOp.needsWrite, if_true, localStep, specBody]
+  cases h : primLock st none with
+  | error e => rfl
+  | ok p =>
+    obtain ⟨t, s1⟩ := p
+    simp only [release]
+    cases h2 : primRelease { s1 with tags := dset s1.tags name r } t with
+    | error e => simp
+    | ok s3 => simp
+
+/-- … and the reads -/
+theorem spec_unlocked_eq_localStep_reads (src : Graph) (st : St) :
+    ((specStep src {} st .tip).1, (specStep src {} st .tip).2.2) = localStep src st .tip
+      ∧ ((specStep src {} st .tagDict).1, (specStep src {} st .tagDict).2.2) = localStep src st .tagDict := by
+  constructor <;> rfl
+
+/-! non-vacuity: a fresh object is coherent, scoped and local; a state reached inside a lock scope with all
+four caches filled is coherent; the partial theorem's hypothesis holds for a script with pulls, tip and tag
+writes; `TagsInv` holds as found for a fresh object -/
+example : Coherent {} St.init ∧ Scoped {} ∧ LocalObj {} ∧ TagsInv Variant.asFound {} := by decide
+
+example :
+    let r := runSess (rsStep Variant.fixed wSrc []) {} St.init
+      [.lockW, .pull false 1 wA1 [(tV1, wA1)], .tip, .tagDict]
+    Coherent r.2.1 r.2.2 ∧ r.2.1.tipC = some (1, wA1) ∧ r.2.1.realTipC = some (1, wA1)
+      ∧ r.2.1.tagsC = some [(tV1, wA1)] ∧ r.2.1.realTagsC = some [(tV1, wA1)] ∧ r.2.1.lk.mode = .w := by decide
+
+example : ∀ op ∈ wScript, NoSrcTags op := by decide
+
+example : (runSpec wSrc {} St.init wScript).1
+    = [.token, .moved (0, nullRev) (2, wA2) 0, .moved (2, wA2) (3, wA3) 0, .err .diverged, .ok] := by decide
 
 end BreezyVerif.C32
